@@ -155,6 +155,35 @@ def gen_weights(ctx):
     return triples
 
 
+def gen_prelude(ctx):
+    """count dictionaries (1-3 populations, counts > 1, projecting down) whose cache keys lie in the exhaustively
+    examined range of gen_weights"""
+    rng = ctx.rng
+    nmax = ctx.pick(14, 40)
+    cases = []
+    for _ in range(ctx.pick(12, 60)):
+        d = rng.choice([1, 1, 1, 2, 3])
+        called = [rng.randint(2, nmax) for _ in range(d)]
+        proj = [rng.randint(1, c) for c in called]
+        entries = []
+        for _ in range(rng.randint(1, 6)):
+            entries.append([called, [rng.randint(0, c) for c in called], True, rng.choice([1, 2, 3, 7, 40])])
+        cases.append({'projections': proj, 'entries': entries})
+    return cases
+
+
+def check_prelude(ctx, cases, res):
+    for c, r in zip(cases, res):
+        ok = 'error' not in r
+        tot = sum({(tuple(e[0]), tuple(e[1]), e[2]): e[3] for e in c['entries']}.values())     # later duplicates replace earlier ones, as in the dictionary
+        if ok:
+            ok = abs(r['total'] - tot) <= 1e-9 * max(1, tot)
+        ctx.obligation('prelude: _from_count_dict over %d population(s) conserves the SNP count' % len(c['projections']), ok, 'predicate', '' if ok else repr(r))
+        if not ok:
+            ctx.violation('_from_count_dict (projection of every SNP configuration through the cached weights) does not conserve the number of SNPs: %r instead of %r' % (r, tot),
+                          data={'kind': 'prelude', 'case': c, 'impl': r})
+
+
 def gen_spectra(ctx):
     rng = ctx.rng
     cases = []
@@ -442,7 +471,7 @@ def check_neutral(ctx, res):
 
 def run(ctx):
     ctx.rule = ('weights: every (proj_to, proj_from, hits) with proj_from <= 14 (quick) / 40 (thorough), random triples up to 200, plus upward triples, '
-                'evaluated in shuffled order through the module cache, twice; spectra: dimension 1-4, per-axis sizes 0..12 (1-D up to 60), '
+                'evaluated in shuffled order through the module cache, twice, after a call history of _from_count_dict runs (1-3 populations, counts > 1) that use the same cache keys; spectra: dimension 1-4, per-axis sizes 0..12 (1-D up to 60), '
                 'non-negative dyadic data with zeros, random masks (p in 0..0.3, corners optional), folded (built by fold(), optional extra masks) '
                 'or unfolded, target sizes incl. 0 / unchanged axes, an intermediate size vector, an axis order; refused inputs (upward, wrong length); '
                 'neutral spectrum: all (n, m) small, random up to 200.  distinct = distinct generated input; non-trivial = at least one axis shrinks')
@@ -454,10 +483,16 @@ def run(ctx):
     triples = gen_weights(ctx)
     cases = gen_spectra(ctx)
     pairs = gen_neutral(ctx)
+    pre = gen_prelude(ctx)
     if ctx.replay:
         rp = json.load(open(ctx.replay))
         inp = rp.get('input') or {}
         triples, cases, pairs = [], [], []
+        if inp.get('kind') != 'prelude':
+            pre = []
+        else:
+            pre = [inp['case']]
+            triples = [(m, n, j) for m in range(0, 41) for n in range(m, 41) for j in range(0, n + 1) if n in inp['case']['entries'][0][0]]
         if inp.get('kind') == 'weights':
             triples = [tuple(inp['triple'])]
         elif inp.get('kind') == 'spectrum':
@@ -466,8 +501,10 @@ def run(ctx):
             pairs = [tuple(inp['pair'])]
         else:
             triples = gen_weights(ctx)[:200]
-    res = lib.run_impl('c08_impl.py', {'weights': [list(t) for t in triples], 'spectra': cases, 'neutral': [list(p) for p in pairs]}, timeout=1800)
+    res = lib.run_impl('c08_impl.py', {'prelude': pre, 'weights': [list(t) for t in triples], 'spectra': cases, 'neutral': [list(p) for p in pairs]}, timeout=1800)
     n0 = len(ctx.violations)
+    if pre:
+        check_prelude(ctx, pre, res['prelude'])
     if triples:
         check_weights(ctx, triples, res['weights'], res['weights_cached'])
     if cases:
